@@ -4,6 +4,8 @@ import copy
 import math
 from fractions import Fraction
 
+from harness import instr
+import lena.structures.hist_functions
 from harness.core import Check, Violation, short
 from hypothesis import strategies as st
 
@@ -29,8 +31,15 @@ MAGS = [0, 1e-300, -1e-300, 5e-324, 1e-10, -1e-10, 1, -1, 1e10, -1e10, 1e300,
 @st.composite
 def axis_edges(draw, max_edges=12):
     k = draw(st.integers(2, max_edges))
-    mode = draw(st.integers(0, 7))
-    if mode == 7:
+    mode = draw(st.integers(0, 8))
+    if mode == 8:
+        # integers beyond 2**53 that no float represents (mixed with floats: Python compares int and float
+        # exactly, while an int - float difference is rounded)
+        base = draw(st.sampled_from([2 ** 53, -2 ** 53 - 40, 2 ** 60, 10 ** 17]))
+        s = set(base + d for d in draw(st.sets(st.integers(0, 40), min_size=2, max_size=k)))
+        if draw(st.booleans()):
+            s = set(float(x) if draw(st.booleans()) else x for x in sorted(s))
+    elif mode == 7:
         # magnitudes close to the largest float, one sign (the span max - min stays finite):
         # products like n_bins * (value - min) overflow although every difference is finite
         sgn = draw(st.sampled_from([1, -1]))
@@ -89,9 +98,15 @@ def axis_edges(draw, max_edges=12):
 
 @st.composite
 def coordinate(draw, e):
-    kind = draw(st.integers(0, 9))
+    kind = draw(st.integers(0, 10))
     if kind <= 1:
         return draw(st.sampled_from(e))
+    if kind == 10:
+        x = draw(st.sampled_from(e))
+        if abs(x) < 1e300:
+            # the integer next to an edge / the float an integer edge rounds to
+            return draw(st.sampled_from([int(x) + 1, int(x) - 1, int(x), float(x)]))
+        return x
     if kind == 2:
         return math.nextafter(float(draw(st.sampled_from(e))), INF)
     if kind == 3:
@@ -178,7 +193,7 @@ def _nontrivial(edges, fills):
     return False
 
 
-def judge_fill(case):
+def _judge_fill(case):
     edges = case["edges"]
     dim = len(edges)
     hedges = copy.deepcopy(edges if dim > 1 else edges[0])
@@ -233,6 +248,23 @@ def judge_fill(case):
     return {"nontrivial": _nontrivial(edges, case["fills"]), "classes": list(set(classes))}
 
 
+def _watched(judge):
+    """a bin search that does not terminate is a violation, not a hang: at most 400 executed lines of
+    hist_functions per call on average (12 edges need a few dozen)"""
+    def wrapped(case):
+        n = len(case.get("fills") or []) + len(case.get("values") or []) + len(case.get("values2") or [])
+        try:
+            with instr.Watchdog([lena.structures.hist_functions], 20000 + 4000 * n):
+                return judge(case)
+        except instr.StepBudgetExceeded:
+            raise Violation("bin-search-does-not-terminate", "edges %r, coordinates %s" % (
+                case["edges"], short([f[0] for f in (case.get("fills") or case.get("values") or [])], 600)))
+    return wrapped
+
+
+judge_fill = _watched(_judge_fill)
+
+
 def _prod(t):
     r = 1
     for x in t:
@@ -250,47 +282,62 @@ def element_case(draw):
         ctx = draw(st.one_of(st.none(), st.dictionaries(
             st.sampled_from(["a", "b"]), st.one_of(st.integers(0, 3), st.builds(dict)), max_size=2)))
         vals.append([c, ctx])
-    return {"edges": edges, "values": vals}
+    vals2 = None
+    if draw(st.integers(0, 2)) == 0:
+        vals2 = []
+        for _ in range(draw(st.integers(0, 8))):
+            c = [draw(coordinate(e)) for e in edges]
+            vals2.append([c, draw(st.one_of(st.none(), st.just({"a": 1})))])
+    return {"edges": edges, "values": vals, "values2": vals2}
 
 
-def judge_element(case):
+def _judge_element(case):
     edges = case["edges"]
     dim = len(edges)
     hedges = copy.deepcopy(edges if dim > 1 else edges[0])
     el = Histogram(hedges)
-    ref = {}
-    n_out = 0
     shape = tuple(len(e) - 1 for e in edges)
-    last_ctx = {}
-    for c, ctx in case["values"]:
-        data = c[0] if dim == 1 else list(c)
-        if ctx is None:
-            el.fill(data)
-            last_ctx = {}
-        else:
-            el.fill((data, copy.deepcopy(ctx)))
-            last_ctx = ctx
-        idx = tuple(_ref_index(edges, c))
-        if all(0 <= i < n for i, n in zip(idx, shape)):
-            ref[idx] = ref.get(idx, 0) + 1
-        else:
-            n_out += 1
-    res = list(el.compute())
-    if len(res) != 1:
-        raise Violation("histogram-element-result-count", "%r" % (res,))
-    hist, ctx = res[0]
-    got = _flat(hist.bins, dim)
-    exp = dict((i, ref.get(i, 0)) for i in got)
-    if got != exp or set(ref) - set(got) or hist.n_out_of_range != n_out:
-        raise Violation("histogram-element-differs-from-bisect-histogram",
-                        "edges %r values %r: bins %r n_out %r; expected %r n_out %r" % (
-                            hedges, short(case["values"]), hist.bins, hist.n_out_of_range, sorted(ref.items()), n_out))
-    if sum(got.values()) + hist.n_out_of_range != len(case["values"]):
-        raise Violation("weight-not-conserved", "%r" % (case,))
-    if ctx != last_ctx:
-        raise Violation("histogram-element-context", "context %r, expected that of the last value %r" % (ctx, last_ctx))
+    # rounds of fill* compute, with reset() between them: every round is a histogram of its own values
+    rounds = [case["values"]] + ([case["values2"]] if case.get("values2") is not None else [])
+    for rnd, values in enumerate(rounds):
+        if rnd:
+            el.reset()
+        ref = {}
+        n_out = 0
+        last_ctx = {}
+        for c, ctx in values:
+            data = c[0] if dim == 1 else list(c)
+            if ctx is None:
+                el.fill(data)
+                last_ctx = {}
+            else:
+                el.fill((data, copy.deepcopy(ctx)))
+                last_ctx = ctx
+            idx = tuple(_ref_index(edges, c))
+            if all(0 <= i < n for i, n in zip(idx, shape)):
+                ref[idx] = ref.get(idx, 0) + 1
+            else:
+                n_out += 1
+        res = list(el.compute())
+        if len(res) != 1:
+            raise Violation("histogram-element-result-count", "%r" % (res,))
+        hist, ctx = res[0]
+        got = _flat(hist.bins, dim)
+        exp = dict((i, ref.get(i, 0)) for i in got)
+        what = "" if rnd == 0 else " (after reset(), earlier round %s)" % short(rounds[0])
+        if got != exp or set(ref) - set(got) or hist.n_out_of_range != n_out:
+            raise Violation("histogram-element-differs-from-bisect-histogram",
+                            "edges %r values %r%s: bins %r n_out %r; expected %r n_out %r" % (
+                                hedges, short(values), what, hist.bins, hist.n_out_of_range, sorted(ref.items()), n_out))
+        if sum(got.values()) + hist.n_out_of_range != len(values):
+            raise Violation("weight-not-conserved", "%r%s" % (case, what))
+        if ctx != last_ctx:
+            raise Violation("histogram-element-context", "context %r, expected that of the last value %r%s" % (ctx, last_ctx, what))
     return {"nontrivial": len(case["values"]) >= 2 and _nontrivial(edges, [(c, 1) for c, _ in case["values"]]),
-            "classes": ["dim=%d" % dim]}
+            "classes": ["dim=%d" % dim, "rounds=%d" % len(rounds)]}
+
+
+judge_element = _watched(_judge_element)
 
 
 def strat_invalid(tier):
